@@ -17,11 +17,14 @@ pub struct ReaderPlan {
     pub fail_at: Option<u32>,
     /// keep failing on every later call (else fail once, then continue)
     pub fail_forever: bool,
+    /// a reader that times out now and then: once `fail_at` bytes (or none) were delivered, every n-th
+    /// read() call fails without consuming anything and the next call works again (0 = off)
+    pub fail_every: u8,
 }
 
 impl ReaderPlan {
     pub fn to_json(&self) -> J {
-        json!({"chunks": self.chunks, "interrupt_every": self.interrupt_every, "fail_at": self.fail_at, "fail_forever": self.fail_forever})
+        json!({"chunks": self.chunks, "interrupt_every": self.interrupt_every, "fail_at": self.fail_at, "fail_forever": self.fail_forever, "fail_every": self.fail_every})
     }
     pub fn from_json(j: &J) -> ReaderPlan {
         ReaderPlan {
@@ -29,6 +32,7 @@ impl ReaderPlan {
             interrupt_every: j["interrupt_every"].as_u64().unwrap_or(0) as u8,
             fail_at: j["fail_at"].as_u64().map(|x| x as u32),
             fail_forever: j["fail_forever"].as_bool().unwrap_or(false),
+            fail_every: j["fail_every"].as_u64().unwrap_or(0) as u8,
         }
     }
     pub fn splits(&self) -> bool {
@@ -48,12 +52,14 @@ pub fn plan(with_faults: bool) -> BoxedStrategy<ReaderPlan> {
     } else {
         Just(None).boxed()
     };
-    (chunks, intr, fail, any::<bool>())
-        .prop_map(|(chunks, interrupt_every, fail_at, fail_forever)| ReaderPlan {
+    let every = if with_faults { prop_oneof![3 => Just(0u8), 1 => 2u8..6].boxed() } else { Just(0u8).boxed() };
+    (chunks, intr, fail, any::<bool>(), every)
+        .prop_map(|(chunks, interrupt_every, fail_at, fail_forever, fail_every)| ReaderPlan {
             chunks,
             interrupt_every,
             fail_at,
             fail_forever,
+            fail_every,
         })
         .boxed()
 }
@@ -65,6 +71,7 @@ pub struct PlanReader<'a> {
     calls: u64,
     chunk_i: usize,
     failed_once: bool,
+    flaky_calls: u64,
     interrupted_last: bool,
     /// total bytes handed out so far
     pub consumed: Rc<Cell<usize>>,
@@ -82,6 +89,7 @@ impl<'a> PlanReader<'a> {
             calls: 0,
             chunk_i: 0,
             failed_once: false,
+            flaky_calls: 0,
             interrupted_last: false,
             consumed: Rc::new(Cell::new(0)),
             tripwire: None,
@@ -101,7 +109,14 @@ impl Read for PlanReader<'_> {
             return Err(Error::new(ErrorKind::Interrupted, "interrupted (generated)"));
         }
         self.interrupted_last = false;
-        if let Some(at) = self.plan.fail_at {
+        if self.plan.fail_every > 0 {
+            if self.pos >= self.plan.fail_at.unwrap_or(0) as usize {
+                self.flaky_calls += 1;
+                if self.flaky_calls % self.plan.fail_every as u64 == 0 {
+                    return Err(Error::new(ErrorKind::TimedOut, "generated read timeout"));
+                }
+            }
+        } else if let Some(at) = self.plan.fail_at {
             if self.pos >= at as usize && (self.plan.fail_forever || !self.failed_once) {
                 self.failed_once = true;
                 return Err(Error::new(ErrorKind::Other, "generated I/O fault"));
